@@ -190,25 +190,22 @@ def TrigErr.name : TrigErr → String
   | .triggerModifier => "triggerModifier" | .arity => "arity" | .nullArgument => "nullArgument"
   | .tc m => m.name
 
-/-- `TypeCheck got expected` on parameter lists with `IgnoreFnParamNameMismatches`: a
-parameter is found by name, otherwise the parameter at the same position must be compatible -/
-def cbParamErr (gp : List (String × Ty)) : List (String × Ty) → Nat → Option Msg
-  | [], _ => none
-  | (n, e) :: rest, idx =>
-    match lookupTy n gp with
-    | some g =>
+/-- `TypeCheck got expected` on parameter lists with `IgnoreFnParamNameMismatches`: parameters
+correspond by position (repair F1); under the same name the types must be compatible, under
+different names the types must be compatible the other way round -/
+def cbParamErr : List (String × Ty) → List (String × Ty) → Option Msg
+  | (gn, g) :: gs, (n, e) :: rest =>
+    if gn == n then
       match typeCheck true g e with
       | some m => some m
-      | none => cbParamErr gp rest (idx + 1)
-    | none =>
-      match gp[idx]? with
-      | some (_, g) => if (typeCheck true e g).isNone then cbParamErr gp rest (idx + 1) else some .fnParamMissing
-      | none => some .fnParamMissing
+      | none => cbParamErr gs rest
+    else if (typeCheck true e g).isNone then cbParamErr gs rest else some .fnParamMissing
+  | _, _ => none
 
 def callbackShapeErr (c : TrigCase) : Option Msg :=
   match typeCheck true c.cbRet c.expRet with
   | some m => some m
-  | none => if c.expParams.length != c.cbParams.length then some .fnParamCount else cbParamErr c.cbParams c.expParams 0
+  | none => if c.expParams.length != c.cbParams.length then some .fnParamCount else cbParamErr c.cbParams c.expParams
 
 def trigArgErrs : List Ty → List Ty → List TrigErr
   | p :: ps, a :: as =>
